@@ -429,7 +429,21 @@ def set_of_gen(eng, st, g):
     ax1 = FA([i], z3.Implies(rng(i), z3.Select(dom, unwrap(g.elt_at(i), kkind))))
     ax2 = FA([k], z3.Implies(z3.Select(dom, k), z3.And(rng(wit[k]), unwrap(g.elt_at(wit[k]), kkind) == k)),
                     patterns=[z3.Select(dom, k)])
-    st, s = alloc_set(st.assume(ax1, ax2), kkind, dom=dom)
+    axs = [ax1, ax2]
+    src = g.seq.src
+    if g.seq.tag == "setiter" and isinstance(src, tuple) and len(src) >= 4 and src[0] == "order":
+        # {x for x in <set> if cond(x)}: every element of the source set that satisfies the condition is in the result
+        # (the same fact as ax1, triggered by membership in the SOURCE set instead of by an enumeration index)
+        _, order, pos, sdom = src[:4]
+        probe = z3.Const(fresh_name("cj"), I)
+        try:
+            same = z3.simplify(unwrap(g.elt_at(probe), kkind)).eq(z3.simplify(z3.Select(order, probe)))
+        except Exception:  # noqa
+            same = False
+        if same:
+            x = z3.Const(fresh_name("cx"), ksort)
+            axs.append(FA([x], z3.Implies(z3.And(z3.Select(sdom, x), g.cond_at(pos[x])), z3.Select(dom, x)), patterns=[z3.Select(sdom, x)]))
+    st, s = alloc_set(st.assume(*axs), kkind, dom=dom)
     return [("ok", st, s)]
 
 
